@@ -5,6 +5,8 @@
     for known and unknown allocations, job submits, pause / resume / remove, time advances) whose
     witnesses pass the model's validation; [g] are history variables. *)
 From HQ Require Import Base.Prelude Gen.Consts Autoalloc.Model Autoalloc.Spec Autoalloc.Lemmas Autoalloc.Trans Autoalloc.ProofsC17 Autoalloc.ProofsBackoff.
+From HQ Require Import Sched.Model Sched.Query Sched.QueryProofs Sched.QueryBounds.
+Require Import Sorting.Sorted.
 Open Scope N_scope.
 
 (** #queued allocations <= backlog, at all times *)
@@ -118,6 +120,105 @@ Theorem C17_limiter_index_in_bounds : forall s g qi q,
   Reach s g -> get_queue s qi = Some q -> l_level (q_lim q) < N.of_nat (length (l_delays (q_lim q))).
 Proof. exact limiter_index_in_bounds. Qed.
 
+(** * Demand side: what the scheduler answers to the worker query of a tick ([Sched.Query], the model of
+    tako's [new_worker_query] / [compute_new_worker_query]); for every state, every list of queries and
+    every solver answer [s] *)
+
+(** one count per query - or an error / the empty answer when scheduling could not finish *)
+Theorem C17_query_response_length : forall st qs flag finished s o,
+  new_worker_query st qs flag finished s = Ok o ->
+  match o with
+  | QErr => forallb desc_valid qs = false
+  | QResp r => (flag = true /\ finished = false /\ r_sn r = [] /\ r_mn r = []) \/ length (r_sn r) = length qs
+  end.
+Proof. exact new_worker_query_length. Qed.
+
+(** no waiting single-node class has a placement variable on the fake workers of query [i] (none fits its
+    descriptor and time limit)  ->  no worker is asked for that query *)
+Theorem C17_query_no_candidates_no_demand : forall st qs s r i q,
+  compute_new_worker_query st qs s = Ok r -> nth_error qs i = Some q ->
+  (forall rq, 0 < waiting_of (query_inst st qs) rq -> class_fits (query_inst st qs) q rq = false) ->
+  nth_error (r_sn r) i = Some 0.
+Proof. exact query_no_candidates_no_demand. Qed.
+
+(** what "fits" means: the time limit covers the class's [min_time] and the (completed) descriptor has
+    every amount the class asks for *)
+Theorem C17_class_fits_time : forall I q rq t,
+  class_fits I q rq = true -> wq_time_limit q = Some t -> rc_min_time (class_of I rq) <= t.
+Proof. exact class_fits_time. Qed.
+Theorem C17_class_fits_resources : forall I q rq,
+  class_fits I q rq = true ->
+  Forall (fun e => snd e <= rv_get (vec_of_desc (full_desc (i_nres I) q)) (fst e)) (min_req I rq).
+Proof. exact class_fits_resources. Qed.
+
+(** count i <= max_sn_workers i *)
+Theorem C17_query_count_le_max : forall st qs s r i q c,
+  compute_new_worker_query st qs s = Ok r -> nth_error qs i = Some q -> nth_error (r_sn r) i = Some c ->
+  c <= wq_max_sn q.
+Proof. exact query_count_le_max. Qed.
+
+(** for every solver answer that is a feasible point of the model's rows: all counts together <= number of
+    waiting tasks of the classes that have a batch (every class once) ... *)
+Theorem C17_query_total_le_waiting : forall st qs s r,
+  compute_new_worker_query st qs s = Ok r -> query_sol_ok st qs s = true ->
+  exists bs, create_task_batches (query_inst st qs) = Ok bs
+    /\ sumN (r_sn r) <= batches_waiting (query_inst st qs) bs.
+Proof. exact query_total_le_batches. Qed.
+
+(** ... and count i <= number of waiting tasks of the classes that fit query i *)
+Theorem C17_query_count_le_fitting : forall st qs s r i q c,
+  compute_new_worker_query st qs s = Ok r -> query_sol_ok st qs s = true ->
+  nth_error qs i = Some q -> nth_error (r_sn r) i = Some c ->
+  exists bs, create_task_batches (query_inst st qs) = Ok bs
+    /\ c <= sumN (map (fun b => if class_fits (query_inst st qs) q (b_rq b)
+                               then waiting_of (query_inst st qs) (b_rq b) else 0) bs).
+Proof. exact query_count_le_fitting. Qed.
+
+(** only fake workers (ids above the worker counter) take part *)
+Theorem C17_query_only_fake_ids : forall st qs w,
+  In w (i_workers (query_inst st qs)) -> qs_worker_counter st < w_id w.
+Proof. exact query_only_fake_ids. Qed.
+
+(** multi-node part: every entry belongs to a multi-node class, names the FIRST query whose time limit covers
+    the class's [min_time] and whose [max_workers_per_allocation] reaches its [n_nodes], asks for [n_nodes]
+    workers per allocation and as many allocations as the class has waiting tasks *)
+Theorem C17_mn_entry_sound : forall st qs s r e,
+  compute_new_worker_query st qs s = Ok r -> In e (r_mn r) ->
+  exists k q_ j q,
+    nth_error (qs_queues st) k = Some q_ /\ is_mn st (N.of_nat k) = true
+    /\ mn_per_alloc e = nodes_of st (N.of_nat k)
+    /\ mn_max_allocs e = queue_size q_
+    /\ mn_type e = N.of_nat j /\ nth_error qs j = Some q
+    /\ mn_accepts (class_min_time st (N.of_nat k)) (nodes_of st (N.of_nat k)) q = true
+    /\ (forall j' q', (j' < j)%nat -> nth_error qs j' = Some q' ->
+          mn_accepts (class_min_time st (N.of_nat k)) (nodes_of st (N.of_nat k)) q' = false).
+Proof. exact mn_entry_sound. Qed.
+
+Theorem C17_mn_accepts_spec : forall mt n q,
+  mn_accepts mt n q = true <-> (forall t, wq_time_limit q = Some t -> mt <= t) /\ n <= wq_max_per_alloc q.
+Proof. exact mn_accepts_spec. Qed.
+
+(** conversely every multi-node class with such a query has its entry ... *)
+Theorem C17_mn_entry_complete : forall st qs s r k q_ j q,
+  compute_new_worker_query st qs s = Ok r ->
+  nth_error (qs_queues st) k = Some q_ -> is_mn st (N.of_nat k) = true ->
+  nth_error qs j = Some q ->
+  mn_accepts (class_min_time st (N.of_nat k)) (nodes_of st (N.of_nat k)) q = true ->
+  (forall j' q', (j' < j)%nat -> nth_error qs j' = Some q' ->
+     mn_accepts (class_min_time st (N.of_nat k)) (nodes_of st (N.of_nat k)) q' = false) ->
+  In {| mn_type := N.of_nat j; mn_per_alloc := nodes_of st (N.of_nat k); mn_max_allocs := queue_size q_ |} (r_mn r).
+Proof. exact mn_entry_complete. Qed.
+
+(** ... a class no query accepts contributes nothing, and the list is sorted by (worker_type, worker_per_allocation) *)
+Theorem C17_mn_no_admissible_no_entry : forall st qs rq q_,
+  (forall q, In q qs -> mn_accepts (class_min_time st rq) (nodes_of st rq) q = false) ->
+  mn_entry_of st qs rq q_ = [].
+Proof. exact mn_no_admissible_no_entry. Qed.
+Theorem C17_mn_sorted : forall st qs s r,
+  compute_new_worker_query st qs s = Ok r -> StronglySorted mn_key_le (r_mn r).
+Proof. exact mn_sorted. Qed.
+
+
 Check C17_backlog : forall s g qi q, Reach s g -> get_queue s qi = Some q -> queued_count q <= q_backlog q.
 Check C17_max_workers : forall s g qi q m, Reach s g -> get_queue s qi = Some q -> q_maxw q = Some m -> active_worker_count q <= m.
 
@@ -136,3 +237,16 @@ Print Assumptions C17_F14_unfixed_refuted.
 Print Assumptions C17_limiter_index_in_bounds.
 Print Assumptions C17_last_attempt_recorded.
 Print Assumptions C17_counters_count_consecutive_failures.
+Print Assumptions C17_query_response_length.
+Print Assumptions C17_query_no_candidates_no_demand.
+Print Assumptions C17_class_fits_time.
+Print Assumptions C17_class_fits_resources.
+Print Assumptions C17_query_count_le_max.
+Print Assumptions C17_query_total_le_waiting.
+Print Assumptions C17_query_count_le_fitting.
+Print Assumptions C17_query_only_fake_ids.
+Print Assumptions C17_mn_entry_sound.
+Print Assumptions C17_mn_accepts_spec.
+Print Assumptions C17_mn_entry_complete.
+Print Assumptions C17_mn_no_admissible_no_entry.
+Print Assumptions C17_mn_sorted.
